@@ -16,5 +16,6 @@ def put(tag, text):
 
 put("asbuilt", subprocess.run([str(V / "tools" / "asbuilt_table.py")], capture_output=True, text=True).stdout)
 put("seeded", subprocess.run([str(V / "tools" / "seed_table.py")], capture_output=True, text=True).stdout)
+put("benign", subprocess.run([str(V / "tools" / "benign_table.py")], capture_output=True, text=True).stdout)
 p.write_text(s)
 print("DESIGN.md updated")
